@@ -4,7 +4,8 @@ spec/LinkLayer/LinkLayer.tla        property-level spec: one action per radio ca
                                     demand of the link layer's answer (scheduled window / channel / end of link)
 spec/LinkLayer/LinkLayerMC.tla      closed design-level model (most general conforming peripheral + simulated central),
                                     model checked exhaustively: lost-event patterns, latency 0..3, instants -3..+8, wrap
-spec/LinkLayer/LinkLayerGen.tla     behaviour generator (environment behaviours -> scripts for the scripted radio)
+spec/LinkLayer/LinkLayerGen.tla     behaviour generator (environment behaviours -> scripts for the scripted radio); family
+                                    "latbound": latency value boundaries x pull back distance x channel index x counter wrap
 spec/LinkLayer/LinkLayerTrace.tla   trace validation of the recorded radio calls / callbacks of the real link layer
 harness/ll/scripted_radio.hpp       harness-owned radio written against the scheduled_radio concept
 harness/ll/ll_harness.cpp           drives bluetoe::link_layer::link_layer<server, scripted_radio, options...>
@@ -42,7 +43,11 @@ META = {
                     "harness/ll, g++/ASan.",
             "technique": _TECH, "design_ref": "5.6"},
     "C23": {"text": "Latency 0..3 x all six radio event flags x lost events x notifications with event cancelation "
-                    "(disarmable or not, early/late) x channel-map updates, for the latency configurations ignored / "
+                    "(disarmable or not, early/late) x channel-map updates, and the latency value boundaries "
+                    "0,1,2,36,37,38,74,255,256,481,482,483,498,499 (interval / supervision timeout valid for the latency) x "
+                    "planned event pulled back by one / half / all but one of the skipped events x channel index of the "
+                    "planned event (small, middle, large) x hop x 16-bit event counter wrap (quick: rotating half of the "
+                    "latencies per family), for the latency configurations ignored / "
                     "strict / strict_plus / default / run-time switchable set: replayed on the real link_layer<>; TLC "
                     "validates for every scheduled event SkipBound (<= latency skipped), ListenWhenRequired (next "
                     "event whenever a configured condition held) and channel = CSA#1(map, hop, counter) with the "
@@ -75,9 +80,9 @@ def build_variants(c, names):
     return dict(zip(names, exes))
 
 
-def gen_cfg(c, name, family, D=6, lats="{0,1,3}", dminneg=3, dmax=8, ncfg=1, small="FALSE", wraps="{}", rots="{0}"):
-    return vlib.write_cfg(c, name, "CONSTANTS Family = \"%s\"  D = %d  Lats = %s  DMinNeg = %d  DMax = %d  NCfg = %d  Small = %s  Wraps = %s  Rots = %s\n"
-                          "SPECIFICATION GSpec\nINVARIANTS Emit\nCHECK_DEADLOCK FALSE\n" % (family, D, lats, dminneg, dmax, ncfg, small, wraps, rots))
+def gen_cfg(c, name, family, D=6, lats="{0,1,3}", dminneg=3, dmax=8, ncfg=1, small="FALSE", wraps="{}", rots="{0}", wlats="{}"):
+    return vlib.write_cfg(c, name, "CONSTANTS Family = \"%s\"  D = %d  Lats = %s  DMinNeg = %d  DMax = %d  NCfg = %d  Small = %s  Wraps = %s  Rots = %s  WLats = %s\n"
+                          "SPECIFICATION GSpec\nINVARIANTS Emit\nCHECK_DEADLOCK FALSE\n" % (family, D, lats, dminneg, dmax, ncfg, small, wraps, rots, wlats))
 
 
 def script_of(beh):
@@ -274,8 +279,31 @@ def run_c22(c, r):
     c.exhaustive = True
 
 
+# boundaries of the peripheral latency VALUE: 0..2, around one / two rounds of the 37 data channels, 8 bit boundary, around the
+# largest multiple of 37 below the legal maximum (481 = 13 * 37), the legal maximum 499
+LAT_BOUNDS = [0, 1, 2, 36, 37, 38, 74, 255, 256, 481, 482, 483, 498, 499]
+
+
+def latbound_behaviours(c):
+    """family "latbound" (LinkLayerGen.tla): latency value boundaries x pull back distance x channel index of the planned
+    event x hop x 16 bit counter wrap. quick: every second latency (rotating with the seed) for the channel index grid, the
+    others for the counter wrap, one rotation of hop / timeout / configuration; thorough: all latencies, four rotations.
+    Generated for the run-time switchable configuration set (`latcfg` op first); the other variants replay it without that op."""
+    if c.quick:
+        par = c.seed % 2
+        grid, wrap, rots = LAT_BOUNDS[par::2], LAT_BOUNDS[1 - par::2], [c.seed % 9]
+    else:
+        grid, wrap, rots = LAT_BOUNDS, LAT_BOUNDS, [0, 3, 4, 8]
+    tla_set = lambda xs: "{" + ",".join(str(x) for x in xs) + "}"
+    behs = generate(c, "latbound", "gen_latbound.cfg", lats=tla_set(grid), wlats=tla_set(wrap), rots=tla_set(rots), ncfg=4, small="TRUE")
+    c.extra["latbound"] = {"grid_latencies": grid, "wrap_latencies": wrap, "rotations": rots, "behaviours": len(behs)}
+    c.sample({"family": "latbound", "behaviour": behs[-1][:16]})
+    return behs
+
+
 def run_c23(c, r):
     q = c.quick
+    lb = latbound_behaviours(c)
     for variant in VARIANTS_FOR[(c.prop, q)]:
         ncfg = VARIANTS[variant][2]
         if q:
@@ -285,6 +313,7 @@ def run_c23(c, r):
         else:
             behs = generate(c, "latency", "gen_lat_%s.cfg" % variant, D=2, lats="{1,3}", ncfg=ncfg, small="TRUE")
         c.sample({"family": "latency", "variant": variant, "behaviour": behs[len(behs) // 3]})
+        behs += [b if ncfg > 1 else [op for op in b if op[0] != "latcfg"] for b in lb]
         r.run(variant, behs, "lat")
         nsim, dsim = (40, 8) if q else (150, 14)
         behs = generate(c, "latency", "sim_lat_%s.cfg" % variant, D=dsim, lats="{1,2,3}", ncfg=ncfg, simulate=max(1, nsim // 4), depth=dsim + 4)
